@@ -125,8 +125,11 @@ let exec toks =
       let h1 = shift_suit_hand ws in
       let h2 = shift_suit_hand h1 in
       let h3 = shift_suit_hand h2 in
-      let eqr a = match (a, v0) with Ok x, Ok y -> s_b (x = y) | _ -> "P" in
-      String.concat " " (List.map (fun h -> eqr (hand_rank_value c h)) [ h1; h2; h3 ] @ [ s_b (shift_suit_hand h3 = ws) ])
+      let w0 = hand_rank_value_validated c ws in
+      let eqr a r0 = match (a, r0) with Ok x, Ok y -> s_b (x = y) | _ -> "P" in
+      String.concat " "
+        (List.concat_map (fun h -> [ eqr (hand_rank_value c h) v0; eqr (hand_rank_value_validated c h) w0 ]) [ h1; h2; h3 ]
+         @ [ s_b (shift_suit_hand h3 = ws) ])
   | "chain7" | "chain7s" -> (
       let ws = nums () in
       let skip l k = List.filteri (fun i _ -> i <> k) l in
